@@ -38,3 +38,7 @@ Theorem C08_tx_after_answer_refuted :
               | Some td, tw :: _ => td <? tw
               | _, _ => false end = true.
 Proof. exact tx_after_answer_reachable. Qed.
+
+(* the caps are the ones the property states: 1 + min(max_retries, 3) transmissions, waits doubling up to 8x *)
+Theorem C08_caps_as_stated : MAX_RETRY = 3%nat /\ 2 ^ Z.of_nat MULT_CAP = 8.
+Proof. split; reflexivity. Qed.
